@@ -109,6 +109,11 @@ func runC18(ctx *core.Ctx) {
 
 	// --- unknown properties reject everything ---------------------------------
 	unknown := []string{"behavior", "-moz-binding", "Color", "color ", " color", "colour", "COLOR", "background-image ", "x", "", "binding", "-ms-behavior", "src", "content", "unicode-range", "font-face", "expression", "zoom", "-webkit-mask-image", "mask", "clip-path", "will-change"}
+	// real CSS properties (newer modules) that the documented table does not list
+	unknown = append(unknown, strings.Fields(`gap row-gap inset inset-block inset-inline aspect-ratio accent-color place-items place-content place-self scroll-snap-type scroll-snap-align scroll-margin scroll-padding overscroll-behavior
+		text-underline-offset text-decoration-thickness text-emphasis font-display font-feature-settings font-variation-settings font-optical-sizing mask-image mask-size contain content-visibility appearance all block-size inline-size
+		min-block-size max-inline-size line-clamp translate rotate scale touch-action overflow-anchor overflow-clip-margin color-scheme forced-color-adjust print-color-adjust container container-type view-transition-name
+		offset-path shape-outside shape-margin text-wrap white-space-collapse hyphenate-character initial-letter math-style ruby-position text-combine-upright border-start-start-radius margin-trim anchor-name src unicode-range`)...)
 	r := ctx.StreamRand("unknown-names")
 	for i := 0; i < 40; i++ {
 		unknown = append(unknown, gen.RandIdent(r, 3+r.Intn(10)))
